@@ -237,8 +237,16 @@ func ZZ_C08_RuntimeFaults(sv *zzsv.T) {
 		}
 	}
 	usable := true
+	// the host may have given the evaluator a context (one that never becomes
+	// done within the run): faults come back the same way
+	withCtx := sv.Choice("with_context", 2) == 1
 	ok := zzNoPanic(func() {
 		e := New(src)
+		if withCtx {
+			c := sv.Ctx("ctx.never", 1000000)
+			sv.Assume(c.K == 1000000)
+			e.SetContext(c)
+		}
 		e.SetVariable("i", &object.Integer{Value: i})
 		e.SetVariable("j", &object.Integer{Value: j})
 		e.SetVariable("a", a.obj())
